@@ -9,10 +9,13 @@ package main
 // C09 driver. bytes.Reader / bytes.Buffer are modelled as holders of a byte slice.
 
 import (
+	"encoding/json"
 	"fmt"
 	"go/types"
+	"os"
 	"reflect"
 	"strconv"
+	"strings"
 )
 
 type leafField struct {
@@ -221,6 +224,63 @@ func driveC09(w *World, c *Checker) {
 	}()
 	c.Assump = append(c.Assump, "reflection contract (assumed): readBinaryStruct / writeBinaryStruct read / write the exported fields in declaration order, recursively, as fixed-size little-endian values; the layout is recomputed from go/types on every run",
 		"bytes.Reader / bytes.Buffer hold exactly the bytes they were given (documented behaviour of package bytes)")
-	c.Functions["snes.readBinaryStruct"] = "trusted type-indexed model (reflection)"
-	c.Functions["snes.writeBinaryStruct"] = "trusted type-indexed model (reflection)"
+	c.Functions["snes.readBinaryStruct"] = "trusted type-indexed model (reflection); agreement with the real function checked BOUNDED (see bounded_checks)"
+	c.Functions["snes.writeBinaryStruct"] = "trusted type-indexed model (reflection); agreement with the real function checked BOUNDED (see bounded_checks)"
+	boundedHeaderModelCheck(w, c, lay, total)
+}
+
+// boundedHeaderModelCheck: the two reflection helpers cannot be brought within reach of the VC generator; their
+// type-indexed model is an assumption of the C09 proofs. As a stand-in, the REAL functions are run natively (test
+// injected into the root package with go test -overlay) on a fixed set of 80-byte images — all zero, all $FF, each
+// single byte set to $FF and to $01, 512 pseudo-random images — and every leaf field is compared with the
+// little-endian bytes at the model's offset; writing the parsed header back must reproduce the image. BOUNDED: it
+// samples 675 of 2^640 images; it is reported separately and never counted as a discharged obligation.
+func boundedHeaderModelCheck(w *World, c *Checker, lay []leafField, total int) {
+	var b strings.Builder
+	b.WriteString("package snes\n\nimport (\n\t\"bytes\"\n\t\"encoding/binary\"\n\t\"fmt\"\n\t\"math/rand\"\n\t\"testing\"\n)\n\nvar _ = binary.LittleEndian\n\n")
+	b.WriteString("func snesvcHdrCheck(img []byte) string {\n\tvar h Header\n\tif err := readBinaryStruct(bytes.NewReader(img), &h); err != nil {\n\t\treturn \"read error: \" + err.Error()\n\t}\n")
+	for _, lf := range lay {
+		var want string
+		switch lf.Size {
+		case 1:
+			want = fmt.Sprintf("uint64(img[%d])", lf.Off)
+		case 2:
+			want = fmt.Sprintf("uint64(binary.LittleEndian.Uint16(img[%d:]))", lf.Off)
+		case 4:
+			want = fmt.Sprintf("uint64(binary.LittleEndian.Uint32(img[%d:]))", lf.Off)
+		case 8:
+			want = fmt.Sprintf("binary.LittleEndian.Uint64(img[%d:])", lf.Off)
+		default:
+			continue
+		}
+		fmt.Fprintf(&b, "\tif uint64(h%s) != %s {\n\t\treturn fmt.Sprintf(\"field %s: got %%#x, the %d byte(s) at offset %d say %%#x\", uint64(h%s), %s)\n\t}\n", lf.Name, want, lf.Name, lf.Size, lf.Off, lf.Name, want)
+	}
+	fmt.Fprintf(&b, "\tvar buf bytes.Buffer\n\tif err := writeBinaryStruct(&buf, &h); err != nil {\n\t\treturn \"write error: \" + err.Error()\n\t}\n\tif !bytes.Equal(buf.Bytes(), img) {\n\t\treturn fmt.Sprintf(\"written bytes differ from the image: %%x\", buf.Bytes())\n\t}\n\treturn \"\"\n}\n\n")
+	fmt.Fprintf(&b, "func TestSnesvcHdrModel(t *testing.T) {\n\tn := 0\n\ttry := func(img []byte) bool {\n\t\tn++\n\t\tif msg := snesvcHdrCheck(img); msg != \"\" {\n\t\t\tfmt.Printf(\"SNESVC_HDR FAIL %%x %%s\\n\", img, msg)\n\t\t\treturn false\n\t\t}\n\t\treturn true\n\t}\n")
+	fmt.Fprintf(&b, "\tz := make([]byte, %d)\n\tif !try(z) {\n\t\treturn\n\t}\n\tf := bytes.Repeat([]byte{0xff}, %d)\n\tif !try(f) {\n\t\treturn\n\t}\n", total, total)
+	fmt.Fprintf(&b, "\tfor k := 0; k < %d; k++ {\n\t\tfor _, v := range []byte{0xff, 0x01} {\n\t\t\timg := make([]byte, %d)\n\t\t\timg[k] = v\n\t\t\tif !try(img) {\n\t\t\t\treturn\n\t\t\t}\n\t\t}\n\t}\n", total, total)
+	fmt.Fprintf(&b, "\tr := rand.New(rand.NewSource(20260927))\n\tfor i := 0; i < 512; i++ {\n\t\timg := make([]byte, %d)\n\t\tr.Read(img)\n\t\tif !try(img) {\n\t\t\treturn\n\t\t}\n\t}\n\tfmt.Printf(\"SNESVC_HDR OK %%d\\n\", n)\n}\n", total)
+	out, _ := runOverlayTest(w, repoPath, b.String(), "^TestSnesvcHdrModel$")
+	rec := map[string]interface{}{"what": "snes.readBinaryStruct / writeBinaryStruct against the type-indexed model used in the C09 proofs", "kind": "bounded",
+		"bound": "675 images of 80 bytes: all zero, all $FF, every single byte set to $FF and to $01, 512 pseudo-random (fixed seed)", "how": "real functions run natively, test injected with go test -overlay"}
+	switch {
+	case strings.Contains(out, "SNESVC_HDR OK"):
+		rec["result"] = "agrees on every image tried"
+	case strings.Contains(out, "SNESVC_HDR FAIL"):
+		line := out[strings.Index(out, "SNESVC_HDR FAIL"):]
+		if i := strings.IndexByte(line, '\n'); i > 0 {
+			line = line[:i]
+		}
+		rec["result"] = line
+		dir := "/verif/replays/" + c.Prop
+		os.MkdirAll(dir, 0o755)
+		path := dir + "/snes.readBinaryStruct-bounded-model-agreement.json"
+		data, _ := json.MarshalIndent(map[string]interface{}{"property": c.Prop, "obligation": "snes.readBinaryStruct/writeBinaryStruct#bounded-model-agreement", "kind": "bounded", "confirmed": true, "failing_input_and_reason": line}, "", " ")
+		os.WriteFile(path, data, 0o644)
+		c.Violations = append(c.Violations, fmt.Sprintf("VIOLATION property=%s replay=%s obligation=snes.readBinaryStruct/writeBinaryStruct#bounded-model-agreement", c.Prop, path))
+	default:
+		rec["result"] = "the native run produced no verdict"
+		c.Undecided = append(c.Undecided, "bounded header-model check did not run: "+tailStr(out, 400))
+	}
+	c.Extra["bounded_checks"] = []interface{}{rec}
 }
